@@ -752,3 +752,300 @@ def _init():
 
 def run_scenarios(scs, mutant=None, keep_proj=False):
     return common.pmap(_exec_job, [(sc, mutant, keep_proj) for sc in scs], init=_init, maxtasks=400)
+
+
+# --------------------------------------------------------------------------- spec -> code
+PROJ_KEYS = ('pc', 'hUp', 'hDown', 'hasSL', 'retryLeft', 'needsRes', 'outQ', 'inQ', 'peer')
+
+
+def scenario_from_behaviour(beh):
+    """A TLC behaviour of Safelink -> macro-steps for the real code + the expected post-states
+    projected on PROJ_KEYS."""
+    st0 = beh[0][1]
+    steps, expected = [], []
+    prev = st0
+    for label, st in beh[1:]:
+        name, args = tlc.parse_label(label)
+        if name in ('NegTx', 'DataTx'):
+            steps.append(['tx', args[0]])
+        elif name == 'InPut':
+            steps.append(['in'])
+        elif name == 'OutGet':
+            steps.append(['og'])
+        elif name == 'Submit':
+            steps.append(['sub', st['outQ'][0]])
+        elif name == 'Queue':
+            steps.append(['cfq', st['peer']['txq'][-1]])
+        elif name == 'AppRecv':
+            steps.append(['rcv'])
+        else:
+            raise common.MachineryError('unexpected action label %r in a Safelink behaviour' % label)
+        e = {k: st[k] for k in PROJ_KEYS}
+        e['inQ'] = [norm(p) for p in e['inQ']]
+        expected.append(e)
+        prev = st
+    sc = {'mode': st0['peer']['mode'], 'tail': st0['peer']['tail'], 'deny': st0['peer']['deny'],
+          'retries': st0['retries'], 'steps': steps, 'project': True}
+    return sc, expected
+
+
+# --------------------------------------------------------------------------- judging
+def judge(out, traces, label, count=True):
+    """All traces through TLC (SafelinkTrace).  Returns (bad, drift, drained):
+    bad = [(index, clause, at)], drift = indices not explained by the design spec."""
+    for i, t in enumerate(traces):
+        t['id'] = i + 1
+    short = [t for t in traces if len(t['ev']) <= 400]
+    long_ = [t for t in traces if len(t['ev']) > 400]
+    verdicts = {}
+    tot = {'states': 0, 'transitions': 0, 'wall_s': 0.0}
+    for group in (short, long_):
+        if not group:
+            continue
+        chunk = max(1, min(1500, (len(group) + common.NCPU - 1) // common.NCPU))
+        v, st = common.validate_traces('SafelinkTrace.tla', 'TRACE_Safelink.cfg', group, chunk=chunk, timeout=3000)
+        verdicts.update(v)
+        for k in tot:
+            tot[k] += st[k]
+    if count:
+        out.traces += len(traces)
+        out.states += tot['states']
+        out.transitions += tot['transitions']
+        out.tlc_runs.append({'config': 'TRACE_Safelink (%s)' % label, 'states': tot['states'],
+                             'transitions': tot['transitions'], 'wall_s': round(tot['wall_s'], 2),
+                             'traces': len(traces)})
+    bad, drift, drained = [], [], 0
+    for i, t in enumerate(traces):
+        clause, at, conf, conf_at, mach, dr = verdicts[t['id']]
+        if mach != 'ok':
+            raise common.MachineryError('trace %d (%s): harness/peer-twin inconsistency %s; events %s' %
+                                        (i, label, mach, json.dumps(t['ev'][:40])))
+        if dr:
+            drained += 1
+        if clause != 'ok':
+            bad.append((i, clause, at))
+        elif not conf:
+            drift.append((i, conf_at))
+    return bad, drift, drained
+
+
+def signature(trace, clause, at):
+    """Violated clause + peer kind + the outcomes of the last transmissions before the failing
+    event (run-length encoded): the minimal witness class."""
+    outs = [e['o'] for e in trace['ev'][:max(at, 0)] if e['e'] == 'tx'][-6:]
+    rle = ''.join('%s%d' % (k, len(list(g))) for k, g in itertools.groupby(outs))
+    return '%s/%s/%s' % (clause, trace['mode'], rle or 'none')
+
+
+def replayable(sc, meta):
+    """JSON-able scenario that re-executes deterministically (directors replaced by the static
+    list of macro-steps they produced)."""
+    sc = {k: v for k, v in sc.items() if k != 'steps' or not callable(v)}
+    if 'free' not in sc and meta.get('executed') is not None:
+        sc['steps'] = meta['executed']
+        sc.pop('gen', None)
+    return sc
+
+
+# --------------------------------------------------------------------------- the check
+BUGS = ['flip_up_on_lost', 'dequeue_on_lost', 'no_retry_reset', 'retry_off_by_one', 'sl_on_any_3_bytes',
+        'never_flip_down', 'never_needs_resending']
+
+
+def _tlc_jobs(jobs):
+    """Run several TLC jobs concurrently (they are subprocesses); jobs: (key, fn, args, kwargs)."""
+    from concurrent.futures import ThreadPoolExecutor
+    res = {}
+    with ThreadPoolExecutor(max_workers=len(jobs)) as ex:
+        futs = {k: ex.submit(fn, *a, **kw) for (k, fn, a, kw) in jobs}
+        for k, f in futs.items():
+            res[k] = f.result()
+    return res
+
+
+def check_blocks(out, scs, label, stats, block=6000):
+    """Execute scenarios block-wise against the real code and judge them; violations recorded."""
+    for b in range(0, len(scs), block):
+        part = scs[b:b + block]
+        res = run_scenarios(part)
+        traces = [r[0] for r in res]
+        bad, drift, drained = judge(out, traces, '%s %d-%d' % (label, b, b + len(part)))
+        stats['traces'] += len(traces)
+        stats['events'] += sum(len(t['ev']) for t in traces)
+        stats['tx'] += sum(1 for t in traces for e in t['ev'] if e['e'] == 'tx')
+        stats['drift'] += len(drift) + sum(1 for r in res if r[1]['drift'])
+        stats['drained'] += drained
+        stats['errors'] += sum(1 for t in traces if any(e['e'] == 'err' for e in t['ev']))
+        stats['not_quiet'] += sum(1 for t in traces if not t['fin']['quiet'])
+        for (i, clause, at) in bad:
+            out.violation(signature(traces[i], clause, at), clause,
+                          {'event_index': at, 'events': traces[i]['ev'][max(0, at - 12):at + 2], 'fin': traces[i]['fin']},
+                          {'scenario': replayable(part[i], res[i][1])})
+        if not stats['samples'] or b == 0:
+            for i in (0, len(traces) // 2):
+                stats['samples'].append({'scenario': {k: v for k, v in replayable(part[i], res[i][1]).items()
+                                                      if k not in ('steps', 'free')},
+                                         'outcomes': ''.join(e['o'] for e in traces[i]['ev'] if e['e'] == 'tx')[:60],
+                                         'events': traces[i]['ev'][:10]})
+        if drift and 'first_drift' not in stats:
+            i, at = drift[0]
+            stats['first_drift'] = {'scenario': replayable(part[i], res[i][1]), 'at': at,
+                                    'events': traces[i]['ev'][max(0, at - 6):at + 1]}
+
+
+def new_stats():
+    return {'traces': 0, 'events': 0, 'tx': 0, 'drift': 0, 'drained': 0, 'errors': 0, 'not_quiet': 0, 'samples': []}
+
+
+def main(tier, seed, replay=None):
+    import os
+    out = common.Outcome('C01', tier, seed)
+    rng = random.Random(seed)
+    workers = int(os.environ.get('C01_TLC_WORKERS', '0')) or None
+    out.assumptions = [
+        'peer = nRF ESB safelink rule as written in SafelinkProps!PeerRx (reconstructed from the firmware as remembered; '
+        'an ack always carries at least the header byte with the sequence bits)',
+        'exactly-once / in-order are asserted for sessions with a safelink peer in which the echo ff 05 01 reached the driver '
+        'during start-up, and for the history up to the first link error report ("short of a link failure")',
+        'null uplink frames and null / empty-ack downlink packets (header & 0xF3 == 0xF3) are not packets',
+        'the retry count covers main-loop transmissions (start-up frames are not counted); one report per run that reaches '
+        'the configured number, the count restarts only at an acknowledgement; configured number >= 1',
+        'outcome alphabet {A, U, L}; USB failures (ack status None / exceptions) and the 2 s queue-full timeout of '
+        'RadioDriver.send_packet are outside (virtual time advances only when no thread can run)',
+        '"reaches" is read as bounded: after the last submission, 2*(#accepted+#queued)+6 consecutive acknowledged '
+        'transmissions deliver everything',
+    ]
+    if replay:
+        rp = json.load(open(replay))['replay']
+        _init()
+        tr, info = execute(materialize(rp['scenario']))
+        bad, _d, _n = judge(out, [tr], 'replay')
+        for (i, clause, at) in bad:
+            out.violation(signature(tr, clause, at), clause, {'event_index': at, 'events': tr['ev'][max(0, at - 12):at + 2]},
+                          {'scenario': rp['scenario']})
+        return out.finish()
+
+    # 1. design spec: exhaustive checks; every bug variant must be refuted (vacuity guards)
+    main_cfg = 'MC_Safelink_quick.cfg' if tier == 'quick' else 'MC_Safelink_thorough.cfg'
+    jobs = [('main', tlc.check, ('MC_Safelink.tla', main_cfg), dict(workers=workers or 8, timeout=3000,
+                                                                    coverage=(tier == 'thorough'))),
+            ('modes', tlc.check, ('MC_Safelink.tla', 'MC_Safelink_modes.cfg'), dict(workers=4, timeout=1500))]
+    if tier == 'thorough':
+        jobs.append(('quick', tlc.check, ('MC_Safelink.tla', 'MC_Safelink_quick.cfg'), dict(workers=4, timeout=3000)))
+        jobs.append(('live', tlc.check, ('MC_Safelink.tla', 'MC_Safelink_live.cfg'), dict(workers=4, timeout=3000)))
+    for b in BUGS:
+        jobs.append(('bug:' + b, tlc.expect_violation, ('MC_Safelink.tla', 'MC_Safelink_bug_%s.cfg' % b),
+                     dict(workers=2, timeout=1500)))
+    res = _tlc_jobs(jobs)
+    for k, r in res.items():
+        if k.startswith('bug:'):
+            out.sensitivity['spec:' + k[4:]] = 'refuted (%s) after %d states' % (r.violated, r.distinct)
+        else:
+            out.add_tlc({'main': main_cfg, 'modes': 'MC_Safelink_modes.cfg', 'quick': 'MC_Safelink_quick.cfg',
+                         'live': 'MC_Safelink_live.cfg (liveness EventuallyDelivered under FairSpec)'}[k], r)
+
+    # 2. spec -> code: TLC behaviours driven through the real stack, post-states compared
+    nsim = 150 if tier == 'quick' else 1500
+    rs, behs = tlc.simulate('MC_Safelink.tla', 'SIM_Safelink.cfg', num=nsim, depth=90, seed=seed % 100000, timeout=1500)
+    out.add_tlc('SIM_Safelink.cfg (-simulate num=%d depth=90)' % nsim, rs)
+    sims = [scenario_from_behaviour(b) for b in behs if len(b) > 1]
+    sres = run_scenarios([x[0] for x in sims], keep_proj=True)
+    matched = steps_total = steps_matched = 0
+    first_mismatch = None
+    for (sc, expected), (tr, meta) in zip(sims, sres):
+        ok = meta['drift'] == 0 and len(meta['proj']) == len(expected)
+        for j, (e, p) in enumerate(zip(expected, meta['proj'])):
+            steps_total += 1
+            if e == p:
+                steps_matched += 1
+            else:
+                ok = False
+                if first_mismatch is None:
+                    first_mismatch = {'step': j, 'action': sc['steps'][j],
+                                      'diff': {k: [e[k], p[k]] for k in e if e[k] != p[k]}}
+        matched += ok
+    out.conformance['spec_to_code'] = {'behaviours': len(sims), 'matched': matched, 'steps': steps_total,
+                                       'steps_matched': steps_matched}
+    if first_mismatch:
+        out.conformance['spec_to_code']['first_mismatch'] = first_mismatch
+    stats = new_stats()
+    sim_traces = [r[0] for r in sres]
+    bad, drift, _n = judge(out, sim_traces, 'replayed TLC behaviours')
+    stats['traces'] += len(sim_traces)
+    stats['drift'] += len(drift)
+    for (i, clause, at) in bad:
+        out.violation(signature(sim_traces[i], clause, at), clause,
+                      {'event_index': at, 'events': sim_traces[i]['ev'][max(0, at - 12):at + 2]},
+                      {'scenario': {k: v for k, v in sims[i][0].items() if k != 'project'}})
+
+    # 3. code -> spec: exhaustive outcome words x submission patterns, start-up enumeration, random beyond
+    words = word_scenarios(tier)
+    check_blocks(out, words, 'outcome words', stats)
+    nwords = stats['traces'] - len(sim_traces)
+    starts = startup_scenarios(tier, rng)
+    check_blocks(out, starts, 'start-up', stats)
+    rnd = random_scenarios(tier, rng)
+    st_r = new_stats()
+    check_blocks(out, rnd, 'random long runs', st_r, block=64)
+    for k in ('traces', 'events', 'tx', 'drift', 'drained', 'errors', 'not_quiet'):
+        stats[k] += st_r[k]
+    stats['samples'] += st_r['samples'][:1]
+    total = stats['traces']
+    out.conformance['code_to_spec'] = {'traces': total, 'explained_by_design_spec': total - stats['drift'] - len(out.violations),
+                                       'completeness_claim_applied': stats['drained'], 'not_quiescent_at_end': stats['not_quiet']}
+    if 'first_drift' in stats:
+        out.conformance['code_to_spec']['first_drift'] = stats['first_drift']
+    out.evaluations = total
+    out.distinct = total
+    k = 7 if tier == 'quick' else 10
+    out.exhaustive = True
+    out.rule = ('scenario = (peer kind, start-up outcome word, main-loop outcome word over {A,U,L}, submission pattern, '
+                'retries); ALL main-loop words of length <= %d (a word is followed by an all-A drain, so shorter words '
+                'ending in A are subsumed) at patterns eager/late%s [%d traces]; ALL start-up loss patterns (2^j, j<=10%s) '
+                'x peer kinds [%d]; %d TLC -simulate behaviours replayed; %d seeded random runs of 200-%d transmissions with '
+                'random thread schedules; link errors occurred in %d traces; %d transmissions in total' %
+                (k, '/mid', nwords, ', sampled above 64 per j in quick' if tier == 'quick' else '', len(starts), len(sims),
+                 len(rnd), 600 if tier == 'quick' else 2000, stats['errors'], stats['tx']))
+    out.samples = stats['samples'][:6]
+    out.extra['transmissions'] = stats['tx']
+    out.extra['events'] = stats['events']
+
+    # 4. sensitivity: in-memory mutants of the driver must be rejected by the monitor
+    sub = words[::max(1, len(words) // (400 if tier == 'quick' else 1500))] + starts[::max(1, len(starts) // 150)] + rnd[:4]
+    for name in sorted(MUTANTS):
+        mres = run_scenarios(sub, mutant=name)
+        mt = [r[0] for r in mres]
+        o2 = common.Outcome('C01', tier, seed)
+        mbad, _d, _n = judge(o2, mt, 'mutant ' + name, count=False)
+        clauses = sorted({c for (_i, c, _a) in mbad})
+        out.sensitivity['mutant:' + name] = '%d of %d traces rejected (%s)' % (len(mbad), len(mt), ','.join(clauses))
+        if not mbad:
+            raise common.MachineryError('monitor did not reject in-memory mutant %s' % name)
+    # binding self-tests: corrupted traces must be rejected
+    base = next(r[0] for r in run_scenarios(words[-3:]) if any(e['e'] == 'sub' for e in r[0]['ev']))
+    cor = {}
+    t = copy.deepcopy(base)
+    del t['ev'][next(i for i, e in enumerate(t['ev']) if e['e'] == 'tx' and e['o'] == 'A' and not e['st'][2] == 0)]
+    cor['drop-one-acked-tx-event'] = t
+    t = copy.deepcopy(base)
+    next(e for e in t['ev'] if e['e'] == 'sub')['p'][1] ^= 1
+    cor['flip-one-bit-of-a-submitted-packet'] = t
+    t = copy.deepcopy(base)
+    del t['ev'][next(i for i, e in enumerate(t['ev']) if e['e'] == 'og')]
+    cor['drop-one-out_queue-get-event'] = t
+    t = copy.deepcopy(base)
+    e = next(e for e in t['ev'] if e['e'] == 'tx' and e['o'] == 'A' and e['st'][2] == 1)
+    e['rep'][1] ^= 4
+    cor['flip-seq-bit-in-an-ack (peer twin check)'] = t
+    for i, (name, t) in enumerate(cor.items()):
+        t['id'] = i + 1
+    v, _st = common.validate_traces('SafelinkTrace.tla', 'TRACE_Safelink.cfg', list(cor.values()))
+    for name, t in cor.items():
+        clause, at, conf, conf_at, mach, dr = v[t['id']]
+        rejected = clause != 'ok' or not conf or mach != 'ok'
+        out.sensitivity['binding:' + name] = ('rejected (monitor=%s conform=%s twin=%s)' % (clause, conf, mach)) if rejected else 'ACCEPTED'
+        if not rejected:
+            raise common.MachineryError('trace spec accepted corrupted trace: %s' % name)
+    if stats['not_quiet']:
+        raise common.MachineryError('%d executions did not end quiescent (harness problem)' % stats['not_quiet'])
+    return out.finish()
